@@ -25,6 +25,9 @@ func c08(c *Ctx) {
 	c08r3(c, pkg)
 	c08r4(c, pkg)
 	c08asserts(c, pkg)
+	if n := c.freshPerIteration("C08.R7", "core/mapping"); n < 2 {
+		c.R.Undecided("C08.R7", "core/mapping#fresh", "per-iteration stores of reflect.New targets are recognised", fmt.Sprintf("%d found", n))
+	}
 }
 
 // R6: no unchecked single-value type assertion on a supplied value.
